@@ -279,7 +279,10 @@ def audit_axioms(prop):
         f.write("import JsonC.Props.%s\n" % prop)
         for t in thms:
             f.write("#print axioms %s\n" % t)
-    r = sh(["lake", "env", "lean", tmp], cwd=LEAN)
+    # under the build lock: a concurrent check that is rebuilding a shared module (e.g. Generated.Structure after
+    # /repo changed) must not pull the .olean files away while they are being read
+    with flock("lake"):
+        r = sh(["lake", "env", "lean", tmp], cwd=LEAN)
     os.unlink(tmp)
     res, problems = {}, []
     out = r.stdout
